@@ -463,6 +463,42 @@ class Program:
             for b in c.bodies:
                 self.by_key[b.key] = b
 
+        self._resolve_single_impl_traits()
+
+    def _resolve_single_impl_traits(self):
+        """A call of a method of one of the workspace's own traits on a type parameter (`R::trade_places(..)` in a private
+        `fn link<R: LinkRule>`) has no resolved callee.  When the calling function is not public - every instantiation is in
+        the workspace - and the trait has exactly one impl in the workspace, the callee is that impl's method: the seam names
+        what was there.  (A public generic function stays unresolved: its callers may bring their own impl.)"""
+        impls = {}
+        for c in self.crates.values():
+            for i in c.impls:
+                if i.get("trait"):
+                    impls.setdefault((c.name, str(i.get("trait"))), []).append((c, i))
+        for c in self.crates.values():
+            own = {str(t.get("path")): t for t in getattr(c, "traits", []) or []}
+            if not own:
+                continue
+            for b in c.bodies:
+                root = b
+                while root.is_closure and self.by_key.get(root.parent) is not None:
+                    root = self.by_key[root.parent]
+                if root.vis == "pub":
+                    continue
+                for _bb, t in b.calls():
+                    fn = t["fn"]
+                    tr = str(fn.get("trait") or "")
+                    if fn.get("resolved") or tr not in own or "indirect" in fn:
+                        continue
+                    cands = impls.get((c.name, tr), [])
+                    if len(cands) != 1:
+                        continue
+                    ic, imp = cands[0]
+                    ms = [m for m in ic.bodies if not m.is_closure and m.container == imp.get("key") and m.name == fn.get("name")]
+                    if len(ms) != 1:
+                        continue
+                    fn["resolved"] = {"def": ms[0].key, "path": ms[0].path, "krate": ic.name, "local": True, "kind": "item", "args": [], "is_closure": False, "by": "single-impl"}
+
     def crate(self, name):
         c = self.crates.get(name)
         if c is None:
